@@ -14,6 +14,8 @@ import (
 	"encoding/json"
 	"fmt"
 	"log"
+	"net"
+	"net/http"
 	"os"
 	"regexp"
 	"sort"
@@ -44,6 +46,7 @@ type childCfg struct {
 
 const (
 	exitStall  = 7
+	exitLeak   = 8
 	clientWait = 15 * time.Second
 	memKB      = 8 << 20 // ulimit -v: an allocation bomb is a prompt, attributable death
 )
@@ -98,6 +101,11 @@ func Main(c *run.Ctx) {
 				break
 			}
 			switch {
+			case out.Exit == exitLeak:
+				// reported by the child; it ended itself so that what it leaked cannot disturb later cases
+				mu.Lock()
+				skip[open.WedgeKey] = true
+				mu.Unlock()
 			case out.Exit == exitStall:
 				// reported by the child (wedge or undecided); do not run this input class again
 				mu.Lock()
@@ -117,7 +125,7 @@ func Main(c *run.Ctx) {
 					c.Undecided("reader watchdog fired")
 					break
 				}
-				sig := "process-death/" + open.Endpoint + "/" + frame
+				sig := "process-death/" + sigEndpoint(open.Endpoint) + "/" + frame
 				c.Violation(sig, fmt.Sprintf("the reader process died on one request to %s: %s at %s; case: %s", open.Endpoint, head, frame, clip(string(open.Case), 900)),
 					map[string]any{"case_index": out.OpenIdx, "case": open, "stderr_tail": tailS(out.Stderr, 6000)})
 				c.Case(open.Trigger + "|death")
@@ -268,20 +276,62 @@ func panicFrame(logTxt string) (string, string) {
 	return head, ""
 }
 
+// connTrack follows the server's view of its connections (http.Server.ConnState): a
+// connection is active from the moment a request was read until its handler returned.
+type connTrack struct {
+	mu     sync.Mutex
+	active map[string]bool
+	last   map[string]http.ConnState
+}
+
+func (t *connTrack) hook(c net.Conn, st http.ConnState) {
+	addr := c.RemoteAddr().String()
+	t.mu.Lock()
+	defer t.mu.Unlock()
+	switch st {
+	case http.StateActive:
+		t.active[addr] = true
+	case http.StateIdle, http.StateClosed, http.StateHijacked:
+		delete(t.active, addr)
+	}
+	t.last[addr] = st
+	if len(t.last) > 4096 {
+		for k, v := range t.last {
+			if v == http.StateClosed {
+				delete(t.last, k)
+			}
+		}
+	}
+}
+
+func (t *connTrack) activeN() int {
+	t.mu.Lock()
+	defer t.mu.Unlock()
+	return len(t.active)
+}
+
+// done reports whether the server has finished with the connection from addr.
+func (t *connTrack) done(addr string) bool {
+	t.mu.Lock()
+	defer t.mu.Unlock()
+	st, ok := t.last[addr]
+	return ok && (st == http.StateClosed || st == http.StateHijacked)
+}
+
 type fuzzer struct {
-	c      *run.Ctx
-	sess   *sqldrv.Session
-	reg    *sqldrv.Registry
-	rd     *sqldrv.Reader
-	cl     *rdcat.Client
-	plog   *panicLog
-	cur    atomic.Pointer[ccase]
-	nstmt  atomic.Int64
-	kinds  sync.Map
-	gone   atomic.Pointer[chan struct{}]
-	leaked int
-	nsess  int
-	lane   int
+	conns *connTrack
+	c     *run.Ctx
+	sess  *sqldrv.Session
+	reg   *sqldrv.Registry
+	rd    *sqldrv.Reader
+	cl    *rdcat.Client
+	plog  *panicLog
+	cur   atomic.Pointer[ccase]
+	nstmt atomic.Int64
+	kinds sync.Map
+	gone  atomic.Pointer[chan struct{}]
+	nsess int
+	lane  int
 }
 
 func (f *fuzzer) newSession() {
@@ -304,7 +354,6 @@ func (f *fuzzer) newSession() {
 	} else {
 		f.reg.Use(s, "")
 	}
-	f.leaked = 0
 }
 
 // hold blocks a row stream until the client of the current case has gone away (bounded).
@@ -331,7 +380,7 @@ func (f *fuzzer) quiesce(base map[string]int, openBefore int64, bound time.Durat
 	for {
 		leakedRows = f.openRows() - openBefore
 		leakedG = nil
-		if leakedRows <= 0 {
+		if leakedRows <= 0 && f.conns.activeN() == 0 {
 			leakedG = run.CensusDiff(base, census())
 			if len(leakedG) == 0 {
 				return 0, nil
@@ -363,6 +412,8 @@ func Child(c *run.Ctx, name string) {
 	f.newSession()
 	f.rd = sqldrv.StartReader(f.reg, "")
 	f.rd.Server.Config.ErrorLog = log.New(f.plog, "", 0)
+	f.conns = &connTrack{active: map[string]bool{}, last: map[string]http.ConnState{}}
+	f.rd.Server.Config.ConnState = f.conns.hook
 	f.cl = rdcat.NewClient(f.rd.Server.URL, clientWait)
 	// warm-up: one canonical request per family, then the baseline
 	for _, n := range []string{"loki.query_range", "prom.query_range", "tempo.search.traceql", "pyro.LabelNames"} {
@@ -440,7 +491,7 @@ func Child(c *run.Ctx, name string) {
 			if where == "" {
 				where = cs.DB.class()
 			}
-			c.Violation("no-response/"+cs.Gen.Endpoint+"/"+where, fmt.Sprintf("%s: the connection was closed twice without any HTTP response (%s); the handler panicked: %s at %s; request %s; database script %s",
+			c.Violation("no-response/"+sigEndpoint(cs.Gen.Endpoint)+"/"+where, fmt.Sprintf("%s: the connection was closed twice without any HTTP response (%s); the handler panicked: %s at %s; request %s; database script %s",
 				cs.Gen.Endpoint, outcome.err, head, frame, clip(cs.Gen.Req.String(), 400), cs.DB.class()),
 				map[string]any{"case_index": gi, "case": json.RawMessage(cb), "client_error": outcome.err, "panic": head, "frame": frame, "panic_log": clip(plog, 4000)})
 		}
@@ -450,8 +501,18 @@ func Child(c *run.Ctx, name string) {
 			bound = 5 * time.Second
 		}
 		lr, lg := f.quiesce(base, openBefore, bound)
+		if (len(lg) > 0 || lr > 0) && computing(lg) != "" {
+			// something of the request is still running (not blocked): give it more time
+			lr, lg = f.quiesce(base, openBefore, 7*time.Second)
+			bound += 7 * time.Second
+		}
 		f.cur.Store(nil)
+		ep := sigEndpoint(cs.Gen.Endpoint)
+		leak := true
 		switch {
+		case (len(lg) > 0 || lr > 0) && computing(lg) != "":
+			c.Undecided("work of the request still computing " + bound.String() + " after it ended, in " + computing(lg))
+			c.Cover("still-computing-after-request", cs.Gen.Endpoint+"|"+computing(lg)+"|"+cs.Client, 1)
 		case len(lg) > 0:
 			var rows []string
 			if lr > 0 {
@@ -466,7 +527,7 @@ func Child(c *run.Ctx, name string) {
 					}
 				}
 			}
-			c.Violation("goroutine-leak/"+cs.Gen.Endpoint+"/"+leakFrame(lg[0]), fmt.Sprintf("%s: %v after the request ended (%s) %d kind(s) of goroutines started for it are still alive (and %d driver.Rows still open), e.g. %s; request %s; database script %s; client %s",
+			c.Violation("goroutine-leak/"+ep+"/"+leakFrame(lg), fmt.Sprintf("%s: %v after the request ended (%s) %d kind(s) of goroutines started for it are still alive and blocked (and %d driver.Rows still open), e.g. %s; request %s; database script %s; client %s",
 				cs.Gen.Endpoint, bound, outcome.answer, len(lg), lr, clip(lg[0], 300), clip(cs.Gen.Req.String(), 300), cs.DB.class(), cs.Client),
 				map[string]any{"case_index": gi, "case": json.RawMessage(cb), "leaked": lg, "open_rows": clipAll(rows, 300), "goroutines": clip(dump, 6000)})
 		case lr > 0:
@@ -475,21 +536,20 @@ func Child(c *run.Ctx, name string) {
 			if len(rows) > 0 {
 				kind = rdcat.Classify(rows[len(rows)-1])
 			}
-			c.Violation("rows-not-closed/"+cs.Gen.Endpoint+"/"+rowsLeakClass(cs), fmt.Sprintf("%s: %v after the request ended (%s) %d driver.Rows opened for it (statement kind %s) are still open and no goroutine of the request is left to close them; request %s; database script %s; client %s",
+			c.Violation("rows-not-closed/"+ep+"/"+rowsLeakClass(cs), fmt.Sprintf("%s: %v after the request ended (%s) %d driver.Rows opened for it (statement kind %s) are still open and no goroutine of the request is left to close them; request %s; database script %s; client %s",
 				cs.Gen.Endpoint, bound, outcome.answer, lr, kind, clip(cs.Gen.Req.String(), 300), cs.DB.class(), cs.Client),
 				map[string]any{"case_index": gi, "case": json.RawMessage(cb), "open_rows": clipAll(rows, 300)})
 		default:
+			leak = false
 			c.Floor("quiescence checks passed", 0, 1)
 		}
 		if d := time.Since(t0); d > time.Second {
 			c.Cover("slow-cases(>1s)", fmt.Sprintf("%s|%s|%s|%s send=%.1fs total=%.1fs", cs.Gen.Endpoint, cs.DB.class(), cs.Client, outcome.answer, tSend.Seconds(), d.Seconds()), 1)
 		}
-		if lr > 0 {
-			// a leaked Rows keeps its pooled connection: move to a fresh pool before it runs dry
-			f.leaked += int(lr)
-			if f.leaked >= 24 {
-				f.newSession()
-			}
+		if leak {
+			// what was left behind must not disturb (or be attributed to) later cases: this child
+			// ends here with the case open, the parent resumes after it
+			os.Exit(exitLeak)
 		}
 		c.EndCase(gi)
 	}
@@ -518,8 +578,53 @@ func rowsLeakClass(cs *ccase) string {
 	return "plain-" + cs.DB.Shape
 }
 
+// computing returns the innermost qryn frame of a leaked goroutine that is running or runnable
+// (still working rather than blocked), "" if all of them are blocked.
+func computing(leaked []string) string {
+	if len(leaked) == 0 {
+		return ""
+	}
+	for _, g := range run.Census() {
+		st := strings.SplitN(g.State, ",", 2)[0]
+		if st != "running" && st != "runnable" && st != "syscall" {
+			continue
+		}
+		for _, l := range leaked {
+			if g.Signature() == l && len(g.QrynFrames()) > 0 {
+				return g.QrynFrames()[0]
+			}
+		}
+	}
+	return ""
+}
+
+// sigEndpoint maps alternative routes of one handler to one name, for signatures.
+func sigEndpoint(e string) string {
+	switch e {
+	case "tempo.trace.alt", "tempo.trace.json":
+		return "tempo.trace"
+	case "tempo.search.alt":
+		return "tempo.search.traceql"
+	case "tempo.tags.alt":
+		return "tempo.tags"
+	case "tempo.tag.values.alt":
+		return "tempo.tag.values"
+	case "loki.label":
+		return "loki.labels"
+	}
+	return e
+}
+
 // leakFrame picks the innermost qryn frame of a leaked goroutine signature ("creator :: f1 < f2").
-func leakFrame(sig string) string {
+func leakFrame(sigs []string) string {
+	// prefer a goroutine the request started over the handler goroutine itself
+	sig := sigs[0]
+	for _, x := range sigs {
+		if !strings.HasPrefix(x, "net/http.") {
+			sig = x
+			break
+		}
+	}
 	parts := strings.SplitN(sig, " :: ", 2)
 	if len(parts) == 2 && parts[1] != "" {
 		fs := strings.Split(parts[1], " < ")
@@ -545,6 +650,10 @@ func (f *fuzzer) send(cs *ccase, gone chan struct{}) outcome {
 		n, err := f.cl.Abandon(cs.Gen.Req, after, 300*time.Millisecond)
 		time.Sleep(2 * time.Millisecond)
 		close(gone)
+		// the server may not even have read the request yet: wait until it has dealt with the connection
+		for t0 := time.Now(); time.Since(t0) < 3*time.Second && !f.conns.done(f.cl.LastAbandonAddr); {
+			time.Sleep(500 * time.Microsecond)
+		}
 		if err != nil {
 			return outcome{kind: "abandoned", answer: "abandon-error", err: err.Error()}
 		}
@@ -649,7 +758,7 @@ func (f *fuzzer) judgeNoAnswer(cs *ccase, gi int, o outcome) {
 		raw += g.Raw + "\n\n"
 	}
 	fr := top.QrynFrames()[0]
-	c.Violation("wedged/"+cs.Gen.Endpoint+"/"+fr, fmt.Sprintf("%s: no complete HTTP answer after %v (%s); %d goroutine(s) of the request sit in the same qryn frames in two dumps 2 s apart, the handler in %s [%s]; request %s; database script %s",
+	c.Violation("wedged/"+sigEndpoint(cs.Gen.Endpoint)+"/"+fr, fmt.Sprintf("%s: no complete HTTP answer after %v (%s); %d goroutine(s) of the request sit in the same qryn frames in two dumps 2 s apart, the handler in %s [%s]; request %s; database script %s",
 		cs.Gen.Endpoint, clientWait, o.answer, len(stuck), fr, top.State, clip(cs.Gen.Req.String(), 400), cs.DB.class()),
 		map[string]any{"case_index": gi, "case": json.RawMessage(cb), "client_error": o.err, "goroutines": clip(raw, 8000)})
 }
